@@ -130,12 +130,20 @@ VCODECS = ["h264", "h265", "av1", "vp9"]
 AUDIOS = ["none", "aac-lc", "aac-main", "aac-ssr", "aac-ltp", "aac-he", "aac-hev2", "opus"]
 
 
+def annexb_tail(rng, codec, f):
+    """Annex B frames now and then end in a dangling start code or in zero bytes (both legal byte
+    streams: trailing_zero_8bits / an empty last unit); the scanner's end-of-buffer cases"""
+    if codec in ("h264", "h265") and rng.random() < 0.08:
+        return f + rng.choice([SC3, SC3, SC4, b"\x00", b"\x00\x00", b"\x00\x00\x00", SC3 + SC3, b"\x00" + SC3])
+    return f
+
+
 def key_frame(rng, codec):
-    return {"h264": h264_key, "h265": h265_key, "av1": av1_key, "vp9": vp9_key}[codec](rng)
+    return annexb_tail(rng, codec, {"h264": h264_key, "h265": h265_key, "av1": av1_key, "vp9": vp9_key}[codec](rng))
 
 
 def delta_frame(rng, codec):
-    return {"h264": h264_delta, "h265": h265_delta, "av1": av1_delta, "vp9": vp9_delta}[codec](rng)
+    return annexb_tail(rng, codec, {"h264": h264_delta, "h265": h265_delta, "av1": av1_delta, "vp9": vp9_delta}[codec](rng))
 
 
 ADTS_BOUNDARY_LENGTHS = [8, 10, 255, 256, 257, 2047, 2048, 2049, 4095, 4096, 4097, 4104, 6000, 8190, 8191]
@@ -257,6 +265,11 @@ def gen_history(rng, dist, codec=None, audio=None, fast=None, md=None, nv=None, 
         if rejects and rng.random() < rejects:
             ops.append(gen_bad_op(rng, codec, audio, ts))
         ops.append(op)
+    if rejects and seq and rng.random() < 3 * rejects:
+        # a refused call as the LAST call of the history (nothing accepted afterwards can repair its traces)
+        last_ts = max(x[1] for x in seq)
+        ops.append(gen_bad_op(rng, codec, audio, last_ts + rng.choice([0.0, 0.02, 0.45, 1.0])))
+        dist["refused_last_call"] += 1
     if finish:
         ops.append(finish)
     dist["codec=" + codec] += 1
@@ -1090,6 +1103,14 @@ def gen_C16(rng, tier, dist):
             out.append(pcase(cfg_str(fast=fast), ["wvd %s %s %s 1" % (f64bits(t), f64bits(0.0), hx(K)), "fins"]))
             out.append(pcase(cfg_str(fast=fast), ["wvd %s %s %s 1" % (f64bits(1.0), f64bits(1.0 + t), hx(K)), "fins"]))
             dist["cts_boundary"] += 2
+    # |pts - dts| within 2^31 of 2^64 (a 64-bit wrapping subtraction would land inside the i32 range)
+    for k in (2 ** 64 - 2 ** 30, 2 ** 64 - 2 ** 31 + 40000, 2 ** 64 - 2 ** 31 - 40000, 2 ** 64 - 50000, 2 ** 64 - 2 ** 20, 2 ** 63 + 2 ** 30):
+        t = k / 90000.0
+        for fast in (0, 1):
+            out.append(pcase(cfg_str(fast=fast), ["wvd %s %s %s 1" % (f64bits(t), f64bits(0.0), hx(K)), "fins"]))
+            out.append(pcase(cfg_str(fast=fast), ["wvd %s %s %s 1" % (f64bits(0.0), f64bits(t), hx(K)), "fins"]))
+            out.append(pcase(cfg_str(fast=fast), ["wvd %s %s %s 1" % (f64bits(t), f64bits(1.0), hx(K)), "wvd %s %s %s 0" % (f64bits(t), f64bits(1.5), hx(D)), "fins"]))
+            dist["cts_near_2^64"] += 3
     # timestamps around 2^53 and 2^64 ticks, huge
     for t in [2 ** 53 / 90000.0, 2 ** 53 / 90000.0 * 1.0000001, 2 ** 63 / 90000.0, 2 ** 64 / 90000.0 * 0.999999, 2 ** 64 / 90000.0, 2 ** 64 / 90000.0 * 1.01, 1e300, 1.7e308]:
         out.append(pcase(cfg_str(), ["wv %s %s 1" % (f64bits(t), hx(K)), "wv %s %s 0" % (f64bits(t * 1.0000001 + 1), hx(D)), "fins"]))
